@@ -115,6 +115,9 @@ def gen_number_text(ctx, n):
         if ctx.rng.random() < 0.5:
             return "%s + %d" % (gen_number_text(ctx, n - a), a)
         return "%s - %d" % (gen_number_text(ctx, n + a), a)
+    if n >= 0 and ctx.rng.random() < 0.08:
+        ctx.features.add("leading-zero-number")
+        return ctx.rng.choice(["0", "00"]) + str(n)        # decimal whatever the leading zeros
     return str(n)
 
 
